@@ -151,6 +151,7 @@ class World:
         self.bdicts = []
         self.moles = []
         self.results = []  # history side only
+        self.scribbled = []  # results the user wrote to since the last check
         self.probes = {}
 
     # ------------------------------------------------------------------ helpers
@@ -699,6 +700,15 @@ def r_scribble(w, op):
     rs = random.Random(op["seed"])
 
     def call():
+        if isinstance(res, np.ndarray):
+            # a result that shares memory with something the user owns is left alone: writing to it
+            # would be the user changing their own input, which the reference world cannot mirror
+            for o in w.all_objects():
+                arrs = [o] if isinstance(o, np.ndarray) else (
+                    [o.coord, o.coeffs, o.exps, o.norm_cont] if hasattr(o, "norm_cont") else [])
+                if any(isinstance(a, np.ndarray) and np.shares_memory(res, a) for a in arrs):
+                    w.probe("result_aliases_user_object")
+                    return
         if isinstance(res, np.ndarray) and res.flags.writeable and res.size:
             flat = res.reshape(-1) if res.flags.c_contiguous else None
             if flat is not None and res.dtype.kind == "f":
@@ -706,6 +716,7 @@ def r_scribble(w, op):
                     flat[rs.randrange(flat.size)] = rs.uniform(-9, 9)
             else:
                 res[...] = 7
+            w.scribbled.append(res)
             w.probe("result_scribbled")
 
     return Bound("noise", "scribble", call=call)
@@ -816,7 +827,10 @@ def _mk_dm(rs, n, mode):
     if mode == "psd":
         return a.dot(a.T)
     b = np.array([[rs.uniform(-1, 1) for _ in range(n)] for _ in range(n)])
-    return (b + b.T) / 2
+    out = (b + b.T) / 2
+    if mode == "nearsym":  # symmetric to round-off only, as a matrix read from a file or built as C n C^T is
+        out = out * (1.0 + 1e-13 * np.array([[rs.uniform(-1, 1) for _ in range(n)] for _ in range(n)]))
+    return out
 
 
 def _mk_charges(rs, n, mode):
